@@ -129,11 +129,12 @@ def identically_zero(t):
     s = z3.simplify(t)
     if z3.is_rational_value(s) or z3.is_int_value(s):
         return s.numerator_as_long() == 0 if z3.is_rational_value(s) else s.as_long() == 0
-    if CTX.ex is None or not CTX.ex.pc:
-        for k in range(_PT_SEEDS):
-            v = eval_at(s, k)
-            if v is not None and v != 0:
-                return False
+    # "identically zero" is meant as a polynomial identity (degenerate scenarios are built by substitution): one seeded point
+    # with a non-zero value refutes it; a term that cannot be evaluated (rounding marks, function symbols) is not treated as zero
+    for k in range(_PT_SEEDS):
+        v = eval_at(s, k)
+        if v is None or v != 0:
+            return False
     return _solver_check(s != 0) == 'unsat'
 
 
@@ -419,11 +420,22 @@ def r_sqrt(x):
         if CTX.ex.branch(x < 0):
             return math.nan
     for sym, rad in CTX.sqrts:
-        if differs(x, rad):
-            continue
-        CTX.stats['sqrt_checks'] += 1
-        if _solver_check(x != rad) == 'unsat':
-            return sym
+        if not x.eq(rad):
+            same = True
+            for k in range(_PT_SEEDS):
+                va, vb = eval_at(x, k), eval_at(rad, k)
+                if va is None or vb is None or va != vb:
+                    same = False
+                    break
+            if not same:
+                continue
+            CTX.stats['sqrt_checks'] += 1
+            sol = z3.Solver()
+            sol.set('timeout', 5000)
+            sol.add(x != rad)
+            if sol.check() != z3.unsat:
+                continue
+        return sym
     sym = z3.Real(f'sqrt!{len(CTX.sqrts)}')
     CTX.sqrts.append((sym, x))
     if CTX.float_mode != 'fork':
